@@ -49,8 +49,10 @@ Section Bridge.
       rewrite RayGeomProofs.ray_point_reverse by (try exact Hlen; lia). exact Hs.
   Qed.
 
-  (* the incoming conventional angle of the reversed ray is the outgoing one of the ray ... *)
-  Lemma conv_inc_reversed j : j < length ifs - 2 ->
+  (* the incoming conventional angle of the reversed ray is the outgoing one of the ray ...
+     (REPAIR: at every interface 1..n of the reversed path, the last one included, i.e. down to
+     the FIRST interface of the path) *)
+  Lemma conv_inc_reversed j : j < length ifs - 1 ->
     RayGeom.conventional_inc_angle NumR ifs' ray' (Z.of_nat (S j))
     = RayGeom.conventional_out_angle NumR ifs ray (Z.of_nat (length ifs - 2 - j)).
   Proof.
@@ -64,24 +66,27 @@ Section Bridge.
     - rewrite H. unfold ifs', ray'. rewrite RayGeomProofs.path_reverse_involutive, rev_involutive. reflexivity.
   Qed.
 
-  (* ... and the other way round *)
-  Lemma conv_out_reversed j : j < length ifs - 2 ->
-    RayGeom.conventional_out_angle NumR ifs' ray' (Z.of_nat (S j))
-    = RayGeom.conventional_inc_angle NumR ifs ray (Z.of_nat (length ifs - 2 - j)).
+  (* ... and the other way round: at every interface 0..n-1 of the reversed path, the first one
+     included, i.e. up to the LAST interface of the path *)
+  Lemma conv_out_reversed j : j < length ifs - 1 ->
+    RayGeom.conventional_out_angle NumR ifs' ray' (Z.of_nat j)
+    = RayGeom.conventional_inc_angle NumR ifs ray (Z.of_nat (length ifs - 1 - j)).
   Proof.
     intros Hj.
     destruct (RayGeomProofs.inc_is_out_of_reverse_all NumR ifs ray Hlen
-                (Z.of_nat (length ifs - 2 - j)) (Z.of_nat (S j)) (length ifs - 2 - j)) as (_ & _ & _ & _ & _ & _ & H).
+                (Z.of_nat (length ifs - 1 - j)) (Z.of_nat j) (length ifs - 1 - j)) as (_ & _ & _ & _ & _ & _ & H).
     - apply RayGeomProofs.resolve_of_nat. lia.
-    - replace (length ifs - 1 - (length ifs - 2 - j)) with (S j) by lia.
+    - replace (length ifs - 1 - (length ifs - 1 - j)) with j by lia.
       apply RayGeomProofs.resolve_of_nat. lia.
     - symmetry. exact H.
   Qed.
 
-  Lemma reversed_list {A} (f f' : nat -> RayGeom.res A) len (l : list A) :
-    (forall j x, j < len -> f (1 + (len - 1 - j)) = RayGeom.Val x -> f' (1 + j) = RayGeom.Val x) ->
-    omapM (fun k => res_to_outcome (f k)) (seq 1 len) = Ok l ->
-    omapM (fun k => res_to_outcome (f' k)) (seq 1 len) = Ok (rev l).
+  (* a list of answers at the indices a .. a+len-1 read backwards is the list of answers of f'
+     at a' .. a'+len-1 *)
+  Lemma reversed_list {A} (f f' : nat -> RayGeom.res A) a a' len (l : list A) :
+    (forall j x, j < len -> f (a + (len - 1 - j)) = RayGeom.Val x -> f' (a' + j) = RayGeom.Val x) ->
+    omapM (fun k => res_to_outcome (f k)) (seq a len) = Ok l ->
+    omapM (fun k => res_to_outcome (f' k)) (seq a' len) = Ok (rev l).
   Proof.
     intros Hf H. apply omapM_ok_Forall2 in H.
     pose proof (Forall2_len _ _ _ H) as Hl. rewrite seq_length in Hl.
@@ -95,7 +100,10 @@ Section Bridge.
   Qed.
 
   (* THE BRIDGE: RayGeometry on Path.reverse() with Rays.reverse() answers rg_reverse of what it
-     answers on the path *)
+     answers on the path.  REPAIR: the record now holds conventional_inc_angle(1..n) and
+     conventional_out_angle(0..n-1) (it held the interior interfaces 1..n-1 only), so the
+     hypothesis `= Ok rg` also requires the inc flag of the last and the out flag of the first
+     interface, and the conclusion also covers these two angles *)
   Theorem rg_of_geometry_reverse vels rg :
     rg_of_geometry NumR ifs ray vels = Ok rg ->
     rg_of_geometry NumR ifs' ray' (rev vels) = Ok (rg_reverse rg).
@@ -104,26 +112,26 @@ Section Bridge.
     destruct (omapM (fun k => res_to_outcome (RayGeom.inc_leg_size NumR ifs ray (Z.of_nat k))) (seq 1 (length ifs - 1)))
       as [legs|] eqn:El; cbn [obind] in H; [|discriminate].
     destruct (omapM (fun i => res_to_outcome (RayGeom.conventional_inc_angle NumR ifs ray (Z.of_nat i)))
-                    (seq 1 (length ifs - 1 - 1))) as [incs|] eqn:Ei; cbn [obind] in H; [|discriminate].
+                    (seq 1 (length ifs - 1))) as [incs|] eqn:Ei; cbn [obind] in H; [|discriminate].
     destruct (omapM (fun i => res_to_outcome (RayGeom.conventional_out_angle NumR ifs ray (Z.of_nat i)))
-                    (seq 1 (length ifs - 1 - 1))) as [outs|] eqn:Eo; cbn [obind] in H; [|discriminate].
+                    (seq 0 (length ifs - 1))) as [outs|] eqn:Eo; cbn [obind] in H; [|discriminate].
     inversion H; subst rg. clear H.
     assert (HL : length ifs' = length ifs) by (unfold ifs'; apply RayGeomProofs.path_reverse_length).
     rewrite HL.
     rewrite (reversed_list (fun k => RayGeom.inc_leg_size NumR ifs ray (Z.of_nat k))
-                           (fun k => RayGeom.inc_leg_size NumR ifs' ray' (Z.of_nat k)) _ legs); [| |exact El].
+                           (fun k => RayGeom.inc_leg_size NumR ifs' ray' (Z.of_nat k)) 1 1 _ legs); [| |exact El].
     2:{ intros j x Hj Hv. apply leg_size_reversed; [lia|].
         replace (length ifs - 1 - j) with (1 + (length ifs - 1 - 1 - j)) by lia. exact Hv. }
     cbn [obind].
     rewrite (reversed_list (fun k => RayGeom.conventional_out_angle NumR ifs ray (Z.of_nat k))
-                           (fun k => RayGeom.conventional_inc_angle NumR ifs' ray' (Z.of_nat k)) _ outs); [| |exact Eo].
+                           (fun k => RayGeom.conventional_inc_angle NumR ifs' ray' (Z.of_nat k)) 0 1 _ outs); [| |exact Eo].
     2:{ intros j x Hj Hv. change (1 + j) with (S j). rewrite conv_inc_reversed by lia.
-        replace (length ifs - 2 - j) with (1 + (length ifs - 1 - 1 - 1 - j)) by lia. exact Hv. }
+        replace (length ifs - 2 - j) with (0 + (length ifs - 1 - 1 - j)) by lia. exact Hv. }
     cbn [obind].
     rewrite (reversed_list (fun k => RayGeom.conventional_inc_angle NumR ifs ray (Z.of_nat k))
-                           (fun k => RayGeom.conventional_out_angle NumR ifs' ray' (Z.of_nat k)) _ incs); [| |exact Ei].
-    2:{ intros j x Hj Hv. change (1 + j) with (S j). rewrite conv_out_reversed by lia.
-        replace (length ifs - 2 - j) with (1 + (length ifs - 1 - 1 - 1 - j)) by lia. exact Hv. }
+                           (fun k => RayGeom.conventional_out_angle NumR ifs' ray' (Z.of_nat k)) 1 0 _ incs); [| |exact Ei].
+    2:{ intros j x Hj Hv. change (0 + j) with j. rewrite conv_out_reversed by lia.
+        replace (length ifs - 1 - j) with (1 + (length ifs - 1 - 1 - j)) by lia. exact Hv. }
     cbn [obind]. reflexivity.
   Qed.
 End Bridge.
